@@ -123,7 +123,8 @@ let record acc ~key ~nontrivial ~klass (sample : json Lazy.t) =
 let max_failures = 20
 let cur_index = ref (-1)
 let fail acc ~kind ~what (case : json) =
-  if List.length acc.failures < max_failures then
+  (* the cap is per kind: a flood of model mismatches must not hide a concrete violation of the specification *)
+  if List.length (List.filter (fun f -> f.kind = kind) acc.failures) < max_failures then
     acc.failures <- { kind; what; case = JO [ "index", JI !cur_index; "input", case ] } :: acc.failures
 
 let result_json acc ~engine ~seed ~tier ~rule ~wall =
@@ -152,6 +153,7 @@ let rbytes st n = String.init n (fun _ -> Char.chr (rint st 256))
 (* run [f] in a forked child; classify how it ended.  The child reports a short
    string through a pipe.  Used wherever the implementation may abort or crash. *)
 type child_end = Exited of int * string | Signaled of int * string
+let child_time_limit = ref 120
 let in_child (f : unit -> string) : child_end =
   flush stdout; flush stderr;
   let (rd, wr) = Unix.pipe () in
@@ -160,6 +162,8 @@ let in_child (f : unit -> string) : child_end =
     Unix.close rd;
     (* silence assert messages of the library *)
     (try let dn = Unix.openfile "/dev/null" [Unix.O_WRONLY] 0 in Unix.dup2 dn Unix.stderr with _ -> ());
+    (* watchdog: a case that hangs (lost wake-up, deadlock) ends with SIGALRM instead of stalling the whole engine *)
+    ignore (Unix.alarm !child_time_limit);
     let s = (try f () with e -> "EXN:" ^ Printexc.to_string e) in
     let _ = Unix.write_substring wr s 0 (String.length s) in
     Unix.close wr; Unix._exit 0
